@@ -5,6 +5,7 @@ package vorder
 
 import (
 	"cmp"
+	"fmt"
 	"slices"
 )
 
@@ -46,6 +47,20 @@ func Keys[K cmp.Ordered, V any](m map[K]V, site string) []K {
 	}
 	idx := chooser(site, len(keys))
 	return permute(keys, idx)
+}
+
+// KeysAny is Keys for key types that are comparable but not ordered (structs): the canonical
+// order is that of the keys' %v rendering.
+func KeysAny[K comparable, V any](m map[K]V, site string) []K {
+	keys := make([]K, 0, len(m))
+	for k := range m {
+		keys = append(keys, k)
+	}
+	slices.SortFunc(keys, func(a, b K) int { return cmp.Compare(fmt.Sprintf("%v", a), fmt.Sprintf("%v", b)) })
+	if chooser == nil || len(keys) <= 1 {
+		return keys
+	}
+	return permute(keys, chooser(site, len(keys)))
 }
 
 func permute[K any](keys []K, idx int) []K {
